@@ -1,6 +1,12 @@
-(* C14 — property theorems only. *)
+(* C14 — property theorems only.  Each is closed by `exact <lemma>` and followed by Print Assumptions.
+
+   Reading guide.  `run cf s0 pre` is the state after the history `pre`, ANY list of steps
+     Tick | Packet k | DpSet k e | DpDel k      (clock, dataplane: refresh / rewrite / evict)
+     Judge k | Drain rk | QDrop k               (userspace scanner: one iteration callback / one turn of its final loop / lost queue entry)
+     Clean k                                    (kernel cleaner: one process_ccq_entry callback)
+   cf = (timeouts, which handleNATEntries: pinned or repaired).  The kernel steps Clean/Packet are hand models of C code. *)
 From Coq Require Import List NArith ZArith Bool.
-From Verif.C14 Require Import Model Spec Proofs.
+From Verif.C14 Require Import Model Spec Proofs Safety Liveness Witness.
 Import ListNotations.
 Open Scope Z_scope.
 
@@ -9,3 +15,106 @@ Theorem c14_timeout_table : forall t now p e,
   expired t now p e = idle_past_timeout t now p e.
 Proof. exact expired_iff_idle. Qed.
 Print Assumptions c14_timeout_table.
+
+(* SAFETY, all interleavings.  From a start state with empty queue and pairing table, timestamps not in the future and
+   no all-zero key, after ANY history `pre` (dataplane rewrites never create the all-zero key): if the cleaner callback
+   `Clean qk` deletes slot k holding e, then
+     - there is an earlier scanner callback `Judge j` such that e was in slot k then, slot k held exactly e in every
+       state from that callback up to now (no packet refreshed it, nothing rewrote or evicted it), and at that callback
+       either k was judged (as itself, or as the reverse entry of forward entry j) idle longer than the timeout of its
+       protocol and state by the TRUE kernel clock, or k is a NAT forward entry that was queued on its own
+       (`alone_reason`: reverse entry absent | reverse key of protocol 0 | pinned code only: reverse entry present,
+       same last_seen, idle past its timeout);  no assumption on the sign of the configured timeouts is needed;
+     - or k is a NAT forward entry deleted in the same atomic step as its reverse entry, whose deletion is justified as above. *)
+Theorem c14_safety : forall cf s0,
+  q s0 = [] -> info s0 = [] -> lookup dummy (ct s0) = None -> cached s0 <= kclock s0 ->
+  (forall k e, lookup k (ct s0) = Some e -> e_ls e <= kclock s0) ->
+  forall pre qk k e,
+  Forall wf_step pre ->
+  lookup k (ct (run cf s0 pre)) = Some e ->
+  lookup k (ct (do_step cf (run cf s0 pre) (Clean qk))) = None ->
+  justified cf s0 pre k e
+  \/ (k = qk /\ e_kind e = KFwd /\ e_rev e <> k /\
+      exists r, lookup (e_rev e) (ct (run cf s0 pre)) = Some r /\
+                lookup (e_rev e) (ct (do_step cf (run cf s0 pre) (Clean qk))) = None /\
+                justified cf s0 pre (e_rev e) r).
+Proof. exact safety. Qed.
+Print Assumptions c14_safety.
+
+(* With fixes/C14-fwd-equal-timestamps.patch the only reasons left for queueing a forward entry alone are an absent
+   reverse entry or a protocol-0 reverse key. *)
+Theorem c14_fwd_alone_only_orphan_fixed : forall cf kf sj f,
+  cf_fix cf = true -> alone_reason cf kf sj f -> lookup (e_rev f) (ct sj) = None \/ proto (e_rev f) = 0%N.
+Proof. exact alone_reason_fixed. Qed.
+Print Assumptions c14_fwd_alone_only_orphan_fixed.
+
+(* "NAT pairs are deleted together or not at all" is FALSE for the pinned code: both entries of a UDP pair carry the
+   same last_seen (last packet hit the forward key), both are judged idle, a reply packet refreshes the reverse entry
+   before the cleaner runs; the cleaner deletes the forward entry and keeps the refreshed reverse entry. *)
+Theorem c14_pair_split_pinned_refuted :
+  let s := run pinned w_s0 w_trace in
+  lookup kF (ct s) = None /\
+  lookup kR (ct s) = Some (mkE KRev (5000 * sec + 2) dummy false false est est).
+Proof. exact split_pinned. Qed.
+Print Assumptions c14_pair_split_pinned_refuted.
+
+(* the same schedule with the repaired handleNATEntries keeps both entries *)
+Theorem c14_pair_kept_repaired :
+  let s := run repaired w_s0 w_trace in
+  lookup kF (ct s) <> None /\ lookup kR (ct s) <> None.
+Proof. exact split_repaired. Qed.
+Print Assumptions c14_pair_kept_repaired.
+
+(* LIVENESS: an entry idle past its timeout by the kernel time the scanner reads (now_used: the cached value, or the
+   clock if the cache is refreshed) is gone after one judge / clean round without packets. *)
+Theorem c14_liveness_normal : forall cf s k e,
+  lookup k (ct s) = Some e -> e_kind e = KNormal -> expired (cf_tm cf) (now_used s) (proto k) e = true ->
+  lookup k (ct (run cf s [Judge k; Clean k])) = None.
+Proof. exact live_normal. Qed.
+Print Assumptions c14_liveness_normal.
+
+Theorem c14_liveness_reverse_alone : forall cf s k e,
+  lookup k (ct s) = Some e -> e_kind e = KRev -> expired (cf_tm cf) (now_used s) (proto k) e = true ->
+  lookup k (info s) = None ->
+  lookup k (ct (run cf s [Judge k; Drain k; Clean k])) = None.
+Proof. exact live_rev_alone. Qed.
+Print Assumptions c14_liveness_reverse_alone.
+
+Theorem c14_liveness_pair_fwd_first : forall cf s kf kr f r,
+  cached s <= kclock s ->
+  lookup kf (ct s) = Some f -> e_kind f = KFwd -> e_rev f = kr ->
+  lookup kr (ct s) = Some r -> e_kind r = KRev -> proto kr <> 0%N ->
+  expired (cf_tm cf) (now_used s) (proto kf) r = true -> expired (cf_tm cf) (now_used s) (proto kr) r = true ->
+  (e_ls f <> e_ls r \/ cf_fix cf = true) ->
+  lookup kr (info s) = None ->
+  let s' := run cf s [Judge kf; Judge kr; Clean kf] in
+  lookup kf (ct s') = None /\ lookup kr (ct s') = None.
+Proof. exact live_pair_fwd_first. Qed.
+Print Assumptions c14_liveness_pair_fwd_first.
+
+Theorem c14_liveness_pair_rev_first : forall cf s kf kr f r,
+  cached s <= kclock s ->
+  lookup kf (ct s) = Some f -> e_kind f = KFwd -> e_rev f = kr ->
+  lookup kr (ct s) = Some r -> e_kind r = KRev -> proto kr <> 0%N ->
+  expired (cf_tm cf) (now_used s) (proto kf) r = true -> expired (cf_tm cf) (now_used s) (proto kr) r = true ->
+  (e_ls f <> e_ls r \/ cf_fix cf = true) ->
+  lookup kr (info s) = None ->
+  let s' := run cf s [Judge kr; Judge kf; Clean kf] in
+  lookup kf (ct s') = None /\ lookup kr (ct s') = None.
+Proof. exact live_pair_rev_first. Qed.
+Print Assumptions c14_liveness_pair_rev_first.
+
+(* the judged idle time only grows with the clock (so a stale cached kernel time errs on the side of keeping) *)
+Theorem c14_expired_monotone : forall t now now' p e,
+  now <= now' -> expired t now p e = true -> expired t now' p e = true.
+Proof. exact expired_mono. Qed.
+Print Assumptions c14_expired_monotone.
+
+(* Non-vacuity: the start state of the witness satisfies every hypothesis of c14_safety, and a quiet round (pinned or
+   repaired) really deletes the idle pair and the idle TCP connection. *)
+Example c14_example_hyps :
+  tm_nonneg tm_default /\ q w_s0 = [] /\ info w_s0 = [] /\ lookup dummy (ct w_s0) = None /\ cached w_s0 <= kclock w_s0.
+Proof. unfold tm_nonneg. vm_compute. repeat split; congruence. Qed.
+Example c14_example_round : forall cf, cf = pinned \/ cf = repaired ->
+  ct (run cf w_s0 [Judge kF; Judge kR; Judge kN; Drain kR; Clean kF; Clean kR; Clean kN]) = [].
+Proof. exact quiet_round. Qed.
